@@ -206,6 +206,32 @@ fn c11_steady(cfg_id: u8, window: usize, arrivals: usize) {
     std::mem::forget(w);
 }
 
+/// C11 (round 4b): steady heartbeats off the whole-second grid: a, b, every gap and the final wait carry a concrete half second
+/// (so sub-second gossip intervals such as 0.5 s are inside the bound).
+fn c11_steady_half(cfg_id: u8, window: usize, arrivals: usize) {
+    let cfg = fixed_config(cfg_id, window);
+    let (thr, init) = (cfg.phi_threshold, cfg.initial_interval.as_secs_f64());
+    let h = Duration::from_millis(500);
+    let a = any_s(cfg.max_interval.as_secs()) + h; let b = any_s(cfg.max_interval.as_secs()) + h;
+    kani::assume(a <= b && b <= cfg.max_interval);
+    let mut w = SamplingWindow::new(window, cfg.max_interval, cfg.initial_interval);
+    vtime::set_now(vtime::Instant { secs: 1_000, nanos: 0 });
+    let mut i = 0;
+    while i < arrivals {
+        if i > 0 { let gap = any_s(cfg.max_interval.as_secs()) + h; kani::assume(gap >= a && gap <= b); advance(gap); }
+        w.report_heartbeat();
+        i += 1;
+    }
+    let wait = any_s(cfg.max_interval.as_secs()) + h;
+    kani::assume(wait <= b);
+    advance(wait);
+    let phi = w.phi();
+    assert!(phi.is_some(), "C11: phi undefined after two fresh heartbeats");
+    kani::cover!(a.as_secs() == 0, "sub-second steady interval");
+    if thr >= (b.as_secs_f64() / fmin(a.as_secs_f64(), init)) * MARGIN { assert!(phi.unwrap() <= thr, "C11: steadily heartbeating member flagged although phi_threshold >= b / min(a, initial_interval)"); }
+    std::mem::forget(w);
+}
+
 /// C12 building block: scheduled_for_deletion = dead for more than half the grace period; garbage_collect at the full period
 fn fd_schedule_gc(grace_s: u64) {
     let mut cfg = FailureDetectorConfig::default();
